@@ -19,7 +19,7 @@ CHECKS = {
   "text": "Assembler.tla gives the declarative image (ISA bit layouts, PC-relative equation, directive expansion) of an abstract syntax tree. TLC (A) checks that the "
           "two-pass pipeline model (early fill / backpatch / emit with the code's modular arithmetic) refines it for all programs over a universe of item shapes "
           "(MC_Assembler: Refines, NoSpill) and (C) validates with Trace_Asm.tla the real pipeline's output for every instruction form x every register x every in-range field value, "
-          "label placements at every field boundary, and random multi-label programs, each rendered in several seeded layouts/spellings.",
+          "label placements at every field boundary, and random multi-label programs, each rendered in several seeded layouts/spellings." + " Lexer.tla (character-level lexer: literal spellings #dec/xHEX/0xHEX/signs/two's-complement reading, keywords in any case, the register rule) is validated against the real raw token stream (Trace_Lex) for every chunk sequence <= 3 over 40 spellings and seeded longer texts; .stringz contents are exhaustive <= 3 over escape-relevant characters; out-of-range programs are fed too (an accepted source must have the right image).",
   "note": "Trusted: TLC, the TLA+ transcription of the encodings, the renderer (its output is the test input; a renderer bug shows as a false VIOLATION, never as a miss). "
           "Field values exhaustive; layouts, label programs and multi-statement programs sampled.",
   "technique": "TLA+ spec of assembly (declarative image + pipeline refinement in TLC) + trace validation of the real assembler's output",
@@ -37,12 +37,12 @@ CHECKS = {
   "technique": 'TLA+ machine spec model-checked on bounded images + trace validation of real runs',
  },
  "C09": {
-  "text": "Debugger.tla wraps Machine.tla. TLC checks on MC_Debugger (catalogue x all non-mutating scripts <= K, then end of input) that the final machine equals the reference machine's (Transparent) and that HALT never executes while attached; Trace_Debug.tla validates real sessions made of non-mutating commands with arbitrary arguments and additionally compares final registers/PC/CC/all memory/output/exit kind with a run of the same image without debugger.",
+  "text": "Debugger.tla wraps Machine.tla. TLC checks on MC_Debugger (catalogue x all non-mutating scripts <= K, then end of input) that the final machine equals the reference machine's (Transparent) and that HALT never executes while attached; Trace_Debug.tla validates real sessions made of non-mutating commands with arbitrary arguments and additionally compares final registers/PC/CC/all memory/output/exit kind with a run of the same image without debugger." + " Direction (B): Gen_Debugger.tla makes TLC print every finished behaviour of the bounded model (program tree, script, final registers/PC/CC/memory, executed-instruction count); each is replayed through the real assembler + debugger and compared.",
   "note": "Trusted: TLC; the cfg-gated hooks (state samples at loop top / after each command / after each instruction, with memory diffs computed over all 65,536 words; stdout/stderr tee; typed unwind instead of process exit); the harness's post-processing of hook events into load/loop/cmd/exec/stop events. Programs and scripts are sampled (catalogue + seeded), bounded by a step budget; J3 (`step` over a recursive call) is a listed known finding.",
   "technique": 'TLA+ debugger spec: refinement-style invariant in TLC + trace validation of real sessions with reference-run comparison',
  },
  "C10": {
-  "text": 'Status machine of next_action as Debugger!Arm/DLoopTop/DCmd/DExec. TLC checks StepCounts / StepNoOvershoot / NoHaltWhileAttached on all scripts <= K (MC_Debugger); Trace_Debug.tla validates real sessions (random stepping scripts, all scripts up to a bounded length over the stepping alphabet on the catalogue, hand-written scenarios) including the exact pause tags and the machine state after every command.',
+  "text": 'Status machine of next_action as Debugger!Arm/DLoopTop/DCmd/DExec. TLC checks StepCounts / StepNoOvershoot / NoHaltWhileAttached on all scripts <= K (MC_Debugger); Trace_Debug.tla validates real sessions (random stepping scripts, all scripts up to a bounded length over the stepping alphabet on the catalogue, hand-written scenarios) including the exact pause tags and the machine state after every command.' + " Direction (B): Gen_Debugger.tla makes TLC print every finished behaviour of the bounded model (program tree, script, final registers/PC/CC/memory, executed-instruction count); each is replayed through the real assembler + debugger and compared.",
   "note": "Trusted: TLC; the cfg-gated hooks (state samples at loop top / after each command / after each instruction, with memory diffs computed over all 65,536 words; stdout/stderr tee; typed unwind instead of process exit); the harness's post-processing of hook events into load/loop/cmd/exec/stop events. Programs and scripts are sampled (catalogue + seeded), bounded by a step budget; J3 (`step` over a recursive call) is a listed known finding.",
   "technique": 'TLA+ debugger spec model-checked + trace validation of real stepping sessions',
  },
@@ -52,7 +52,7 @@ CHECKS = {
   "technique": 'TLA+ debugger spec model-checked + trace validation of real breakpoint sessions',
  },
  "C12": {
-  "text": '`initial` is written by load only (InitialFrozen) and `reset` makes the machine equal it (ResetRestores), checked by TLC on MC_Debugger; Trace_Debug.tla validates real histories (execution, move, goto, eval, self-modifying stores, stores below the origin and into the stack) followed by reset: the observed state, diffed over all 65,536 words, must equal the load state, and the run that follows is validated like a fresh one.',
+  "text": '`initial` is written by load only (InitialFrozen) and `reset` makes the machine equal it (ResetRestores), checked by TLC on MC_Debugger; Trace_Debug.tla validates real histories (execution, move, goto, eval, self-modifying stores, stores below the origin and into the stack) followed by reset: the observed state, diffed over all 65,536 words, must equal the load state, and the run that follows is validated like a fresh one.' + " Direction (B): Gen_Debugger.tla makes TLC print every finished behaviour of the bounded model (program tree, script, final registers/PC/CC/memory, executed-instruction count); each is replayed through the real assembler + debugger and compared.",
   "note": "Trusted: TLC; the cfg-gated hooks (state samples at loop top / after each command / after each instruction, with memory diffs computed over all 65,536 words; stdout/stderr tee; typed unwind instead of process exit); the harness's post-processing of hook events into load/loop/cmd/exec/stop events. Programs and scripts are sampled (catalogue + seeded), bounded by a step budget; J3 (`step` over a recursive call) is a listed known finding.",
   "technique": 'TLA+ debugger spec model-checked + trace validation with full-memory diff after reset',
  },
@@ -67,19 +67,19 @@ CHECKS = {
   "technique": 'TLA+ spec of eval (assembler + ISA composed) + trace validation',
  },
  "C16": {
-  "text": 'Ghost counters iter/nExec/nCmd: ProgressBound is an invariant of MC_Debugger and is evaluated at the end of every validated real session; Terminates (<>(run # running)) is checked by TLC under weak fairness for all non-mutating scripts; real sessions issue every resuming command at PC = 0xFFFF / below origin / >= 0xFE00 / on HALT and must never exhaust the step budget.',
+  "text": 'Ghost counters iter/nExec/nCmd: ProgressBound is an invariant of MC_Debugger and is evaluated at the end of every validated real session; Terminates (<>(run # running)) is checked by TLC under weak fairness for all non-mutating scripts; real sessions issue every resuming command at PC = 0xFFFF / below origin / >= 0xFE00 / on HALT and must never exhaust the step budget.' + " Direction (B): Gen_Debugger.tla makes TLC print every finished behaviour of the bounded model (program tree, script, final registers/PC/CC/memory, executed-instruction count); each is replayed through the real assembler + debugger and compared.",
   "note": "Trusted: TLC; the cfg-gated hooks (state samples at loop top / after each command / after each instruction, with memory diffs computed over all 65,536 words; stdout/stderr tee; typed unwind instead of process exit); the harness's post-processing of hook events into load/loop/cmd/exec/stop events. Programs and scripts are sampled (catalogue + seeded), bounded by a step budget; J3 (`step` over a recursive call) is a listed known finding.",
   "technique": 'TLA+ debugger spec: progress invariant + liveness under fairness in TLC, trace validation with step budget',
  },
  "C06": {
   "category": 'model_checking',
-  "text": "Trace_Cli.tla states the object-file format (ObjectBytes = big-endian [origin|0x3000] ++ Assembler!Image), the loader's acceptance (LoaderAccepts, also an invariant of MC_Machine's Init) and run-equivalence of source and object file; it validates observations of the real binary: compiled bytes of seeded programs, stdout+exit of `run x.asm` vs `run x.lc3` for executable programs with input, and refusals for files of every length parity around the top of memory.",
+  "text": "Trace_Cli.tla states the object-file format (ObjectBytes = big-endian [origin|0x3000] ++ Assembler!Image), the loader's acceptance (LoaderAccepts, also an invariant of MC_Machine's Init) and run-equivalence of source and object file; it validates observations of the real binary: compiled bytes of seeded programs, stdout+exit of `run x.asm` vs `run x.lc3` for executable programs with input, and refusals for files of every length parity around the top of memory." + " Trace_Cli!DispatchOk also covers sub-command / file-extension dispatch (run, bare path, debug x asm/lc3/obj/other/none/missing).",
   "note": 'Trusted: TLC, the real `lace` binary built from /repo into /verif/target/lace (no cfg), Python subprocess plumbing, strace for the system-call order (C08; the check degrades to before/after bytes if ptrace is unavailable and says so in the evidence). Programs sampled (seeded) + boundary matrices.',
   "technique": 'TLA+ spec of object format/loader + TLC validation of real CLI observations',
  },
  "C07": {
   "category": 'model_checking',
-  "text": "Trace_Cli!AgreeOk: the verdicts of `lace check`, `lace compile`, `lace run` under each flag value must all equal Assembler!Accepts (which MC_Assembler shows equal to the pipeline's verdict incl. the emission-time range check) and none may panic; validated for the C04 boundary matrix, out-of-range label references at every statement position for every PC-relative instruction, stack-mnemonic programs and the catalogue.",
+  "text": "Trace_Cli!AgreeOk: the verdicts of `lace check`, `lace compile`, `lace run` under each flag value must all equal Assembler!Accepts (which MC_Assembler shows equal to the pipeline's verdict incl. the emission-time range check) and none may panic; validated for the C04 boundary matrix, out-of-range label references at every statement position for every PC-relative instruction, stack-mnemonic programs and the catalogue." + " Trace_Cli!WatchOk validates real `lace watch` re-checks (file rewritten under a running watcher, with and without -f stack; an unobserved re-check is recorded, never counted).",
   "note": 'Trusted: TLC, the real `lace` binary built from /repo into /verif/target/lace (no cfg), Python subprocess plumbing, strace for the system-call order (C08; the check degrades to before/after bytes if ptrace is unavailable and says so in the evidence). Programs sampled (seeded) + boundary matrices.',
   "technique": 'TLA+ acceptance predicate + TLC validation of check/compile/run verdict triples of the real binary',
  },
@@ -97,12 +97,12 @@ CHECKS = {
  },
  "C18": {
   "category": 'model_checking',
-  "text": 'Gate in three places of the spec: Assembler!ItemOk (mnemonics need the flag), ISA!ExecStack (opcode 0xD without the flag = exit 1, no state change; MC_ISA Stops), Debugger (step out refusal). Trace_Cli!GateOk/FeatValid validate the real binary (refusal naming the feature in any letter case and in label position, identical image/stdout/exit for programs not using the extension under both flag values, -f value grammar); Trace_Debug validates in-process runs with the flag flipped and raw 0xD words.',
+  "text": 'Gate in three places of the spec: Assembler!ItemOk (mnemonics need the flag), ISA!ExecStack (opcode 0xD without the flag = exit 1, no state change; MC_ISA Stops), Debugger (step out refusal). Trace_Cli!GateOk/FeatValid validate the real binary (refusal naming the feature in any letter case and in label position, identical image/stdout/exit for programs not using the extension under both flag values, -f value grammar); Trace_Debug validates in-process runs with the flag flipped and raw 0xD words.' + " Lexer.tla carries the gate at token level (IdentKind): the real token stream is validated under both flag values for chunk sequences containing the four mnemonics in several letter cases, also directly followed by ':' .",
   "note": 'Trusted: TLC, the real `lace` binary built from /repo into /verif/target/lace (no cfg), Python subprocess plumbing, strace for the system-call order (C08; the check degrades to before/after bytes if ptrace is unavailable and says so in the evidence). Programs sampled (seeded) + boundary matrices.',
   "technique": 'TLA+ specs with the flag as a parameter, model-checked, + TLC validation of CLI and in-process observations under both flag values',
  },
  "C05": {
-  "text": "TokModel.tla is the assembler front end (directive preprocessing + statement parser) as a total transition system over 22 token kinds; TLC checks every sequence up to L has a verdict and the preprocessing bound (MC_TokModel). Trace_Tok.tla validates the real assembler on EVERY token-kind sequence up to L (verdict = TokModel!TokAccepts, one test per transition of the model), every string up to M over the lexer's character classes incl. multi-byte characters, mutated programs and size extremes: result is Ok or an Err whose diagnostic renders and whose spans lie inside the source; a panic is an unexplained event.",
+  "text": "TokModel.tla is the assembler front end (directive preprocessing + statement parser) as a total transition system over 22 token kinds; TLC checks every sequence up to L has a verdict and the preprocessing bound (MC_TokModel). Trace_Tok.tla validates the real assembler on EVERY token-kind sequence up to L (verdict = TokModel!TokAccepts, one test per transition of the model), every string up to M over the lexer's character classes incl. multi-byte characters, mutated programs and size extremes: result is Ok or an Err whose diagnostic renders and whose spans lie inside the source; a panic is an unexplained event." + " Trace_Lex additionally validates the raw token stream of EVERY string <= 3 (4 in thorough) over 24 lexer-relevant characters against Lexer!Lex; a rawstrings family covers every .stringz body <= 4 over a \ \" n é 😀 space.",
   "note": 'Trusted: TLC, catch_unwind-based panic observation in the harness (dev profile: overflow checks on). Non-termination would be a harness timeout (tool error). Memory safety of unsafe code is out of scope.',
   "technique": 'TLA+ total-transition-system model of the front end + exhaustive bounded replay of its transitions into the real assembler',
  },
